@@ -37,7 +37,8 @@ theorem ff_Element_Exp_ok_true (z x : Nat) (e : Int) : ff_Element_Exp_ok z x e =
   · rfl
   · generalize hr : Go.forDownRet _ _ _ _ = r
     obtain ⟨h1, -⟩ := forDownRet_inv (fun _ : Nat => True) hr trivial (by
-        intro i s _ _ _
+        intro i s hi0 _ _
+        rw [req_of (decide_eq_true hi0)]
         split <;> exact ⟨rfl, trivial⟩)
     obtain ⟨ret, st⟩ := r
     cases h1
@@ -137,7 +138,8 @@ theorem ffg_Element_Exp_ok_true (z x : Nat) (e : Int) : ffg_Element_Exp_ok z x e
   · rfl
   · generalize hr : Go.forDownRet _ _ _ _ = r
     obtain ⟨h1, -⟩ := forDownRet_inv (fun _ : Nat => True) hr trivial (by
-        intro i s _ _ _
+        intro i s hi0 _ _
+        rw [req_of (decide_eq_true hi0)]
         split <;> exact ⟨rfl, trivial⟩)
     obtain ⟨ret, st⟩ := r
     cases h1
